@@ -23,7 +23,7 @@ def framesTake (cfg : SubCfg) : List (List (List Int)) → Nat
 theorem ok_le32 (log : List OEvent) (hok : ∀ e ∈ log, e.Ok) :
     ∀ c sh p, OEvent.qlpc c sh p ∈ log → c.length ≤ 32 := by
   intro c sh p hm
-  exact (hok _ hm).2.1
+  exact Nat.le_trans (hok _ hm).2.1 (by decide)
 
 theorem encodeFrames_total (cfg : SubCfg) (st : StereoCfg) (bps rate nch bsz : Nat)
     (hnch : 1 ≤ nch ∧ nch ≤ 8) (hbs : bsz < 2 ^ 16) (hb : 1 ≤ bps ∧ bps ≤ 24) (hmax : cfg.maxP ≤ 14) :
